@@ -111,28 +111,62 @@ func describe(v any) (val, aux int64, sl []int, ptr uintptr, cp int) {
 	return 0, 0, nil, 0, 0
 }
 
-// chanOrd maps a channel address to its per-run ordinal (addresses differ between
-// processes and never enter the event-log hash).
+// chanOrd maps a channel to its per-run ordinal (addresses differ between processes
+// and never enter the event-log hash). The table keeps a reference to every channel it
+// has seen: otherwise the collector could free one and hand its address to a new
+// channel, which would then be mistaken for the old one - at a moment that depends on
+// the process, not on the seed.
 //
 //go:norace
-func (s *Sim) chanOrd(p uintptr) int {
-	if p == 0 {
+func (s *Sim) chanOrd(p unsafe.Pointer) int {
+	if p == nil {
 		return 0
 	}
 
-	for i := range s.chans {
-		if s.chans[i].ptr == p {
-			return i + 1
+	if len(s.chanTab) == 0 {
+		s.chanTab = make([]int32, 256)
+	}
+
+	mask := uintptr(len(s.chanTab) - 1)
+	i := (uintptr(p) >> 4 * 0x9e3779b97f4a7c15 >> 20) & mask
+
+	for {
+		o := s.chanTab[i]
+		if o == 0 {
+			break
+		}
+
+		if s.chans[o-1].ref == p {
+			return int(o)
+		}
+
+		i = (i + 1) & mask
+	}
+
+	s.chans = push(s.chans, chanInfo{ref: p})
+	o := len(s.chans)
+	s.chanTab[i] = int32(o)
+
+	if 2*o > len(s.chanTab) {
+		old := s.chans
+		s.chanTab = make([]int32, 2*len(s.chanTab))
+		mask = uintptr(len(s.chanTab) - 1)
+
+		for k := range old {
+			j := (uintptr(old[k].ref) >> 4 * 0x9e3779b97f4a7c15 >> 20) & mask
+			for s.chanTab[j] != 0 {
+				j = (j + 1) & mask
+			}
+
+			s.chanTab[j] = int32(k + 1)
 		}
 	}
 
-	s.chans = push(s.chans, chanInfo{ptr: p})
-
-	return len(s.chans)
+	return o
 }
 
 //go:norace
-func (s *Sim) nameChan(p uintptr, name string) {
+func (s *Sim) nameChan(p unsafe.Pointer, name string) {
 	o := s.chanOrd(p)
 	if o > 0 {
 		s.chans[o-1].name = name
@@ -189,10 +223,10 @@ func (r Rec) String() string {
 }
 
 //go:norace
-func (s *Sim) recordOp(kind Kind, site string, chp uintptr, v any, ok bool, t *task) {
+func (s *Sim) recordOp(kind Kind, site string, chp unsafe.Pointer, v any, ok bool, t *task) {
 	r := Rec{Kind: kind, Site: site, Ok: ok}
 
-	if chp != 0 {
+	if chp != nil {
 		r.Ch = s.chanOrd(chp) // the logical name is filled in at the end of the run
 	}
 
@@ -203,8 +237,8 @@ func (s *Sim) recordOp(kind Kind, site string, chp uintptr, v any, ok bool, t *t
 	s.record(r, t)
 }
 
-func recvPtr[T any](c <-chan T) uintptr { return *(*uintptr)(unsafe.Pointer(&c)) }
-func sendPtr[T any](c chan<- T) uintptr { return *(*uintptr)(unsafe.Pointer(&c)) }
+func recvPtr[T any](c <-chan T) unsafe.Pointer { return *(*unsafe.Pointer)(unsafe.Pointer(&c)) }
+func sendPtr[T any](c chan<- T) unsafe.Pointer { return *(*unsafe.Pointer)(unsafe.Pointer(&c)) }
 
 const (
 	opSend uint64 = iota + 0x10
